@@ -23,11 +23,12 @@ CaseOf(e) == [endpoint |-> e.endpoint, method |-> e.method, disk |-> e.disk, pay
 NoCaseT == [endpoint |-> "configuration", method |-> "PUT", disk |-> << >>, payload |-> << >>, decodable |-> TRUE,
             badb64 |-> {}, fault |-> [point |-> "none", nth |-> 0], tree |-> ""]
 
+LoadedTag(tag) == IF tag \in {"e0", "ws", "cm"} THEN "none" ELSE tag      \* an empty file loads nothing
 Note(v) == viol' = IF v = "" THEN viol ELSE viol \cup {v}
 
 TInit == l = 1 /\ p = PStart(FlowsT, NoCaseT) /\ viol = {} /\ loaded0 = << >>
 
-TReset  == Consume("reset") /\ p' = PStart(FlowsT, CaseOf(Ev)) /\ viol' = {} /\ loaded0' = Ev.loaded
+TReset  == Consume("reset") /\ p' = PStartF(FlowsT, CaseOf(Ev), SeqSet(Cfg.fixed)) /\ viol' = {} /\ loaded0' = Ev.loaded
 TProbe  == /\ Consume("probe")
            /\ Note(ProbeVerdict(p, Ev.ph, Ev.txn, Ev.served))
            /\ p' = PAfterProbe(p, Ev.ph, Ev.txn, Ev.served) /\ UNCHANGED loaded0
@@ -38,7 +39,10 @@ TReply  == /\ Consume("reply") /\ p.st = "running"
            \* the whole tree byte for byte, and what the engine loaded from the directories it reads recursively
            /\ LET v == ReplyVerdict(p, Ev.code, Ev.disk, Ev.tree) IN
               Note(IF v # "" THEN v
-                   ELSE IF ~IsOK(Ev.code) /\ ~p.exempt /\ Ev.loaded # loaded0 THEN "BehavAtomic" ELSE "")
+                   ELSE IF ~IsOK(Ev.code) /\ ~p.exempt /\ Ev.loaded # loaded0 THEN "BehavAtomic"
+                   \* an accepted update: the engine loaded exactly the path-parameter files of the tree it asked for
+                   ELSE IF IsOK(Ev.code) /\ ~p.exempt
+                           /\ \E f \in DOMAIN Ev.loaded : Ev.loaded[f] # LoadedTag(At(p.want, f)) THEN "Complete" ELSE "")
            /\ p' = PAfterReply(p, Ev.code) /\ UNCHANGED loaded0
 TSkip   == l < TraceLen /\ Ev.ev \in {"fs", "hook", "haproxy"} /\ l' = l + 1 /\ UNCHANGED <<p, viol, loaded0>>
 
@@ -49,6 +53,7 @@ DiskAtomic  == "DiskAtomic" \notin viol
 BehavAtomic == "BehavAtomic" \notin viol
 NeverHalf   == "NeverHalf" \notin viol
 OneConfig   == "OneConfig" \notin viol
+Complete    == "Complete" \notin viol
 HWM == Mark(l)
 Post == Report
 ================================================================================
